@@ -108,16 +108,18 @@ class St(object):
   def mods(self, stmts):
     """Threaded variables a loop body changes (in order of first change)."""
     out = []
-    for s in ast.walk(ast.Module(body=stmts, type_ignores=[])):
+    module = ast.Module(body=stmts, type_ignores=[])
+    local = [t.id for s in ast.walk(module) if isinstance(s, ast.Assign) for t in s.targets if isinstance(t, ast.Name)]
+    for s in ast.walk(module):
       if isinstance(s, ast.Expr) and isinstance(s.value, ast.Call) and unp(s) not in self.VIEWS:
-        v = self.effect_var(s.value)
+        v = self.effect_var(s.value, local)
         if v not in out:
           out.append(v)
     return out
 
-  def effect_var(self, c):
+  def effect_var(self, c, local=()):
     saved = dict(self.ex.env)
-    for nm in ('edge', 'key', 'affected_rows'):
+    for nm in ('edge', 'key', 'affected_rows') + tuple(local):
       self.ex.env.setdefault(nm, nm)
     try:
       return self.effect(c)[0]
